@@ -64,6 +64,9 @@ def gen_tree(rng, depth=0, want=None):
             if rng.random() < 0.5:
                 items.append(("v", gen_tree(rng, depth + 2, rng.choice(["scalar", "scalar", "seq", "map"]))))
             recs.append(("map", items))
+        if rng.random() < 0.06:
+            # a list that mixes records with scalars (after a record: the list still opens like an Array-of-Hashes)
+            recs.insert(rng.randrange(1, len(recs) + 1), ("s", rng.choice(SC[:9])))
         return ("seq", recs)
     return ("set", rng.sample(["p", "q", "r", "s"], rng.randrange(1, 4)))
 
